@@ -208,7 +208,7 @@ def malformed_inputs(ctx, scale, rng):
     files += vlib.noise_cases(base, rng, n // 6)
     if not ctx.quick and scale == 1:
         # thorough: EVERY single-field boundary mutation of every small corpus file
-        for cid, b in vlib.corpus_files(max_size=3000):
+        for cid, b in vlib.corpus_files(max_size=1600):
             for o, w, kind in vlib.mutation_sites(b):
                 for v in vlib.BOUNDARY[w]:
                     files.append((f"all/{cid}/{o}:{w}:{v}", vlib.mutate(b, o, w, v)))
@@ -231,19 +231,23 @@ def malformed_routine(oracle, prefixes, rule, load_only):
         res = Result(rule)
         rng = random.Random(ctx.seed * 104729 + scale)
         files = malformed_inputs(ctx, scale, rng)
-        for profile in ("release", "relchk"):
-            m, i = run_both(files, profile, outcome_only=load_only)
-            sub = Result()
-            compare_cases(sub, files, m, i, prefixes, oracle, what=f"malformed stream [{profile}]",
-                          load_only=load_only)
-            for f in sub.oracle_failures + sub.corr_diffs:
-                f["build_profile"] = profile
-            res.merge(sub)
-            res.sections = sub.sections
         kinds = {}
         for cid, _ in files:
             k = cid.split("/")[0]
             kinds[k] = kinds.get(k, 0) + 1
+        batch = 40000
+        for start in range(0, len(files), batch):
+            part = files[start:start + batch]
+            for profile in ("release", "relchk"):
+                m, i = run_both(part, profile, outcome_only=load_only)
+                sub = Result()
+                compare_cases(sub, part, m, i, prefixes, oracle, what=f"malformed stream [{profile}]",
+                              load_only=load_only)
+                for f in sub.oracle_failures + sub.corr_diffs:
+                    f["build_profile"] = profile
+                res.merge(sub)
+                res.sections = sub.sections
+                del m, i
         res.distribution.update({"input:" + k: v for k, v in kinds.items()})
         return res
     return run
@@ -427,6 +431,23 @@ def blend_routine(laws, rule):
                             "pixel": k, "mode": mode, "backdrop": b.hex(), "source": s.hex(),
                             "opacity": op, "result": r.hex(), "call": "Frame::image"})
                         break
+        # the same pixel pairs with the source stored as a tilemap layer (the tilemap renderer has
+        # its own blend dispatch)
+        if scale == 1:
+            treqs = [f"GENBLEND {mode} {ctx.seed * 100 + 7} {lo} {co} 24 24 t" for mode in range(19)
+                     for (lo, co) in ops[:3]]
+            for profile in ("release", "relchk"):
+                cases, inputs, _ = run_driver_raw(treqs, profile)
+                tfiles = [(cid, bytes.fromhex(hx)) for cid, hx in inputs]
+                timpl, _ = vlib.run_impl(vlib.load_lines(tfiles), profile)
+                sub = Result()
+                compare_cases(sub, tfiles, cases, timpl, ["frameimg"], usable_oracle,
+                              what=f"Frame::image with the source in a tilemap layer [{profile}]",
+                              spec_backed="C03.blend_eq_ref with C02.frameImage_spec / C08.writeTiles_pointwise")
+                for f in sub.oracle_failures + sub.corr_diffs:
+                    f["build_profile"] = profile
+                res.merge(sub)
+            res.distribution["tilemap_blend_sprites"] = len(treqs)
         # complete channel squares: every (backdrop channel, source channel) pair, all 19 modes
         if scale == 1:
             alphas = [(255, 255), (128, 255)] if ctx.quick else [(255, 255), (128, 255), (255, 128), (1, 254), (254, 1), (77, 200)]
@@ -761,7 +782,12 @@ def c18_run(ctx, scale):
         w, h = rng.randrange(1, 10), rng.randrange(1, 8)
         px = bytes(rng.randrange(256) for _ in range(4 * w * h))
         cid = f"ex{k}"
-        reqs.append(f"UTIL {cid} extrude {w} {h} {px.hex()}")
+        if k % 3 == 2:
+            # an image whose backing buffer is larger than w*h*4 (allowed by RgbaImage::from_raw)
+            spare = bytes(rng.randrange(256) for _ in range(4 * rng.randrange(1, 8)))
+            reqs.append(f"UTIL {cid} extrude {w} {h} {px.hex()} {spare.hex()}")
+        else:
+            reqs.append(f"UTIL {cid} extrude {w} {h} {px.hex()}")
         meta[cid] = ("extrude", w, h, px)
     colours = [(rng.randrange(256), rng.randrange(256), rng.randrange(256)) for _ in range(6)]
     mreqs_model = []
@@ -788,7 +814,7 @@ def c18_run(ctx, scale):
         mreqs_model.append(f"UTIL {cid2}:fwd indexed {f.hex()} {failure} {transp} fwd {w} {h} {img.hex()}")
         meta[cid2] = ("indexed", first, entries, failure, transp, [tuple(img[4 * j:4 * j + 4]) for j in range(w * h)], w, h)
     impl, _ = vlib.run_impl(reqs)
-    model_reqs = [r for r in reqs if " extrude " in r] + mreqs_model
+    model_reqs = [" ".join(r.split(" ")[:6]) for r in reqs if " extrude " in r] + mreqs_model
     model, _ = vlib.run_model(model_reqs)
 
     def allowed(first, entries, failure, transp, q):
@@ -1051,6 +1077,10 @@ def hostile_memory_inputs(ctx, scale):
         cel = mk_chunk(0x2005, struct.pack("<HhhBH", 0, 0, 0, 255, 3) + bytes(7)
                        + struct.pack("<HHHIIII", w, h, 32, 0x1fffffff, 0x20000000, 0x40000000, 0x80000000) + bytes(10) + z)
         out.append((f"bomb-tilemap/{w}x{h}", mk_header(1, 4, 4) + mk_frame([tileset, layer, cel])))
+    # a valid sparse palette at a huge colour id (first == last): the ids are declared, not supplied
+    for idx in (0x18000000, 0xfffffff0):
+        pal = mk_chunk(0x2019, struct.pack("<III", 1, idx, idx) + bytes(8) + struct.pack("<HBBBB", 0, 1, 2, 3, 255))
+        out.append((f"sparse-palette/{idx:x}", mk_header(1, 4, 4) + mk_frame([pal, mk_layer()])))
     # frame-count skeletons
     for nf in (1000, 65535):
         out.append((f"frames/{nf}", mk_header(nf, 4, 4) + mk_frame([mk_layer()]) + mk_frame([]) * (nf - 1)))
@@ -1089,7 +1119,15 @@ def c12_run(ctx, scale):
         sites = cache[cid]
         o, w, kind = sites[rng.randrange(len(sites))]
         v = rng.choice(big[w])
-        files.append((f"decl/{cid}/{o}:{w}:{v}", vlib.mutate(b, o, w, v)))
+        mb = vlib.mutate(b, o, w, v)
+        tag = f"{o}:{w}:{v}"
+        if rng.random() < 0.25:
+            # two declared fields raised together (e.g. a frame size and a chunk size, first and last index)
+            o2, w2, _ = sites[rng.randrange(len(sites))]
+            v2 = v if w2 == w else rng.choice(big[w2])
+            mb = vlib.mutate(mb, o2, w2, v2)
+            tag += f"+{o2}:{w2}:{v2}"
+        files.append((f"decl/{cid}/{tag}", mb))
     seen = set()
     uniq = []
     for cid, b in files:
@@ -1246,7 +1284,7 @@ def ud_chunk(text):
 def c10_sequences(maxlen):
     """all sequences over the 8 chunk kinds up to length maxlen that satisfy the quantifier's side
     conditions; yields (kinds, expected attachments)"""
-    kinds = ["layer", "cel", "slice", "tags2", "oldpal", "pal", "ign", "ud", "ude"]
+    kinds = ["layer", "cel", "slice", "tags2", "oldpal", "pal", "ign", "ud", "ude", "brk"]
     def rec(seq, ctx, used, nlayers, ncels, pending_tags, depth):
         if seq:
             yield list(seq)
@@ -1268,7 +1306,16 @@ def c10_sequences(maxlen):
                 seq.append(k)
                 yield from rec(seq, newctx, used | {tgt}, nlayers, ncels, pending_tags, depth - 1)
                 seq.pop()
+            elif k == "brk":
+                # a frame boundary: the attachment context carries over; at most 2 breaks
+                if not seq or seq[-1] == "brk" or seq.count("brk") >= 2:
+                    continue
+                seq.append(k)
+                yield from rec(seq, ctx, used, nlayers, 0, pending_tags, depth - 1)
+                seq.pop()
             elif k == "layer":
+                if "brk" in seq:
+                    continue       # layers are declared in the first frame
                 seq.append(k)
                 yield from rec(seq, ("layer", nlayers), used, nlayers + 1, ncels, pending_tags, depth - 1)
                 seq.pop()
@@ -1276,7 +1323,7 @@ def c10_sequences(maxlen):
                 if ncels >= nlayers:
                     continue       # one cel per existing layer, in layer order
                 seq.append(k)
-                yield from rec(seq, ("cel", ncels), used, nlayers, ncels + 1, pending_tags, depth - 1)
+                yield from rec(seq, ("cel", seq.count("brk"), ncels), used, nlayers, ncels + 1, pending_tags, depth - 1)
                 seq.pop()
             elif k == "slice":
                 ns = sum(1 for x in seq if x == "slice")
@@ -1284,7 +1331,7 @@ def c10_sequences(maxlen):
                 yield from rec(seq, ("slice", ns), used, nlayers, ncels, pending_tags, depth - 1)
                 seq.pop()
             elif k == "tags2":
-                if "tags2" in seq:
+                if "tags2" in seq or "brk" in seq:
                     continue
                 seq.append(k)
                 yield from rec(seq, ("tag", 0), used, nlayers, ncels, pending_tags, depth - 1)
@@ -1302,17 +1349,20 @@ def c10_sequences(maxlen):
 
 def c10_build(seq):
     """file for a kind sequence and the declaratively expected attachments"""
-    chunks = []
+    frames = [[]]
     expected = {}
     ctx = None
     nl = ncel = ns = 0
-    tagn = 0
     for idx, k in enumerate(seq):
-        if k == "layer":
+        chunks = frames[-1]
+        if k == "brk":
+            frames.append([])
+            ncel = 0
+        elif k == "layer":
             chunks.append(mk_layer(name=b"L%d" % nl)); ctx = ("layer", nl); nl += 1
         elif k == "cel":
             chunks.append(mk_chunk(0x2005, struct.pack("<HhhBH", ncel, 0, 0, 255, 0) + bytes(7) + struct.pack("<HH", 1, 1) + bytes([1, 2, 3, 255])))
-            ctx = ("cel", ncel); ncel += 1
+            ctx = ("cel", len(frames) - 1, ncel); ncel += 1
         elif k == "slice":
             chunks.append(mk_chunk(0x2022, struct.pack("<III", 0, 0, 0) + struct.pack("<H", 1) + b"s")); ctx = ("slice", ns); ns += 1
         elif k == "tags2":
@@ -1336,14 +1386,14 @@ def c10_build(seq):
             expected[ctx] = text
             if ctx[0] == "tag":
                 ctx = ("tag", ctx[1] + 1)
-    return mk_header(1, 2, 2) + mk_frame(chunks), expected, (nl, ncel, ns)
+    return mk_header(len(frames), 2, 2) + b"".join(mk_frame(f) for f in frames), expected, (nl, ncel, ns)
 
 
 def c10_run(ctx, scale):
     res = Result("EXHAUSTIVELY every chunk sequence over {layer, cel, slice, tags(2), legacy palette, palette, ignorable, "
                  "user data} up to length 5 (quick) / 6 (thorough) in which every user-data chunk has a preceding "
                  "attachable entity, no entity receives two records, at most 2 records follow tags(2) (records with text and empty "
-                 "records with flags 0), plus the generated "
+                 "records with flags 0; up to two frame boundaries anywhere, across which the context carries), plus the generated "
                  "well-formed programs of the struct profile; oracle: each record is reported by the entity whose chunk "
                  "most recently preceded it and by no other entity; distinct = distinct sequences")
     maxlen = 5 if ctx.quick else 6
@@ -1370,7 +1420,7 @@ def c10_run(ctx, scale):
             if w[0] == "layer":
                 got[("layer", int(w[1]))] = ud
             elif w[0] == "celA":
-                got[("cel", int(w[2]))] = ud
+                got[("cel", int(w[1]), int(w[2]))] = ud
             elif w[0] == "slice":
                 got[("slice", int(w[1]))] = ud
             elif w[0] == "tag":
@@ -1482,18 +1532,22 @@ def c09_run(ctx, scale):
     for n in range(1, maxn + 1):
         for lv in forests(n):
             for mask in range(1 << n):
+              for all_image in ((False, True) if n <= 6 else (False,)):
                 chunks = []
                 for i in range(n):
                     vis = (mask >> i) & 1
-                    # a layer is a group iff the next layer is its child
-                    is_group = i + 1 < n and lv[i + 1] == lv[i] + 1
+                    # variant 1: a layer is a group iff the next layer is its child;
+                    # variant 2: every layer is an image layer (the parent rule does not depend on the type)
+                    is_group = (not all_image) and i + 1 < n and lv[i + 1] == lv[i] + 1
                     name = b"L%d" % i
                     chunks.append(mk_chunk(0x2004, struct.pack("<HHHHHHBBH", vis, 1 if is_group else 0, lv[i], 0, 0, 0, 255, 0, 0)
                                            + struct.pack("<H", len(name)) + name))
                 for i in range(n):
                     chunks.append(mk_chunk(0x2005, struct.pack("<HhhBH", i, i, 0, 255, 0) + bytes(7) + struct.pack("<HH", 1, 1)
                                            + bytes([10 + i, 20 + i, 30 + i, 255])))
-                cid = f"forest/{''.join(map(str, lv))}/{mask:0{n}b}"
+                cid = f"forest/{''.join(map(str, lv))}/{mask:0{n}b}/{'img' if all_image else 'grp'}"
+                if all_image and n == 1:
+                    continue
                 files.append((cid, mk_header(1, n, 1) + mk_frame(chunks)))
                 parents, visible = [], []
                 for i in range(n):
@@ -1506,6 +1560,15 @@ def c09_run(ctx, scale):
                     parents.append(p)
                     visible.append(bool((mask >> i) & 1) and (p is None or visible[p]))
                 exp[cid] = (parents, visible)
+    # deep chains: nesting beyond 255 levels, the innermost group (or one in the middle) hidden
+    for depth, hidden in ((255, 200), (256, 255), (300, 255), (300, 299), (1000, 1)):
+        n = depth + 1
+        chunks = [mk_chunk(0x2004, struct.pack("<HHHHHHBBH", 0 if i == hidden else 1, 1 if i < depth else 0, i, 0, 0, 0, 255, 0, 0)
+                           + struct.pack("<H", 0)) for i in range(n)]
+        chunks.append(mk_chunk(0x2005, struct.pack("<HhhBH", depth, 0, 0, 255, 0) + bytes(7) + struct.pack("<HH", 1, 1) + bytes([9, 9, 9, 255])))
+        cid = f"chain/{depth}/hidden{hidden}"
+        files.append((cid, mk_header(1, 1, 1) + mk_frame(chunks)))
+        exp[cid] = ([None] + list(range(depth)), [i < hidden for i in range(n)])
     res.exhaustive = True
     m, i = run_both(files, verbose=True)
     def orc(cid, data, impl, model):
@@ -1517,12 +1580,19 @@ def c09_run(ctx, scale):
             w = l.split(" ")
             if w[0] == "layer":
                 k = int(w[1])
+                if k >= n:
+                    continue
                 kv = dict(x.split("=", 1) for x in w[2:])
                 wantp = "-" if parents[k] is None else str(parents[k])
                 if kv["parent"] != wantp:
                     return f"layer {k}: parent {kv['parent']}, expected {wantp}"
                 if kv["visible"] != ("1" if visible[k] else "0"):
                     return f"layer {k}: is_visible {kv['visible']}, expected {int(visible[k])}"
+            elif w[0] == "frameimg" and cid.startswith("chain/"):
+                px = bytes.fromhex(w[2].split(":")[3])
+                want = bytes([9, 9, 9, 255]) if visible[n - 1] else bytes(4)
+                if px[:4] != want:
+                    return f"frame pixel is {px[:4].hex()}, expected {want.hex()} (innermost layer visible={visible[n - 1]})"
             elif w[0] == "frameimg":
                 px = bytes.fromhex(w[2].split(":")[3])
                 for k in range(n):
